@@ -27,8 +27,29 @@ impl Legend {
     }
 }
 
+/// The legend the server declares in the initialize result.
+fn declared_legend() -> Option<Legend> {
+    let (sc, cc) = lsp_server::Connection::memory();
+    let h = std::thread::spawn(move || ironplcc::verif::serve(sc, ironplcc::lsp_project::LspProject::new(Box::new(ironplcc::project::FileBackedProject::new()))));
+    let _ = cc.sender.send(serde_json::from_value(json!({"id":1,"method":"initialize","params":{"capabilities":{}}})).unwrap());
+    let mut out = None;
+    if let Ok(m) = cc.receiver.recv_timeout(WATCHDOG) {
+        let v = serde_json::to_value(&m).unwrap();
+        let declared: Vec<String> = v["result"]["capabilities"]["semanticTokensProvider"]["legend"]["tokenTypes"]
+            .as_array()
+            .map(|a| a.iter().map(|x| x.as_str().unwrap_or("?").to_string()).collect())
+            .unwrap_or_default();
+        if !declared.is_empty() {
+            out = Some(Legend { names: declared });
+        }
+    }
+    drop(cc);
+    let _ = h.join();
+    out
+}
+
 fn default_legend() -> Legend {
-    // the order the server declares in its capabilities; verified against the initialize response in run()
+    // fallback only: the legend is read from the initialize response (declared_legend)
     Legend {
         names: ["variable", "keyword", "modifier", "comment", "string", "operator"].iter().map(|s| s.to_string()).collect(),
     }
@@ -307,24 +328,13 @@ pub fn run(ctx: &mut Ctx) {
     ctx.bounds.insert("trivia_menu".into(), json!(corpus::trivia_menu().iter().map(|m| m.0).collect::<Vec<_>>()));
     ctx.bounds.insert("documents".into(), json!(corpus::docs().iter().map(|d| d.name).collect::<Vec<_>>()));
 
-    // legend as declared by the server
-    {
-        let (sc, cc) = lsp_server::Connection::memory();
-        let h = std::thread::spawn(move || ironplcc::verif::serve(sc, ironplcc::lsp_project::LspProject::new(Box::new(ironplcc::project::FileBackedProject::new()))));
-        let _ = cc.sender.send(serde_json::from_value(json!({"id":1,"method":"initialize","params":{"capabilities":{}}})).unwrap());
-        if let Ok(m) = cc.receiver.recv_timeout(WATCHDOG) {
-            let v = serde_json::to_value(&m).unwrap();
-            let declared: Vec<String> = v["result"]["capabilities"]["semanticTokensProvider"]["legend"]["tokenTypes"]
-                .as_array()
-                .map(|a| a.iter().map(|x| x.as_str().unwrap_or("?").to_string()).collect())
-                .unwrap_or_default();
-            if declared != legend.names {
-                ctx.fail("legend-changed", &format!("server declares legend {:?}, harness expects {:?}", declared, legend.names), json!({"mode":"legend"}));
-            }
-        }
-        drop(cc);
-        let _ = h.join();
-    }
+    // the legend is whatever the server declares in its capabilities: indices are decoded through it, so
+    // a server that re-orders or extends its legend consistently is judged by the names only
+    let legend = declared_legend().unwrap_or_else(|| {
+        ctx.fail("no-legend-declared", "the initialize result declares no semantic token legend", json!({"mode":"legend"}));
+        legend.clone()
+    });
+    ctx.extra.insert("legend_declared_by_the_server".into(), json!(legend.names));
 
     let vars = variants(thorough);
     // base documents must be valid programs (non-vacuity)
@@ -441,7 +451,7 @@ pub fn run(ctx: &mut Ctx) {
 }
 
 pub fn replay(case: &Value) -> Result<String, String> {
-    let legend = default_legend();
+    let legend = declared_legend().unwrap_or_else(default_legend);
     match case["mode"].as_str() {
         Some("doc") => {
             let text = case["text"].as_str().ok_or("text")?;
